@@ -16,7 +16,7 @@ the domains below, exhaustively.  Binding, both directions:
     Trace_LoadProtocol.tla (LoadProtocol's own actions + "the published event is the logged one") must
     accept every trace; a rejected trace on which the clauses hold is model drift (note), one on which a
     clause fails is already a VIOLATION.  Self-tests: a corrupted trace must be rejected at the corrupted
-    event, every seeded defect of the model (constant Bug) must violate its invariant in TLC.
+    event, every seeded defect of the model (cfg.bug, LoadProtocol_bugs.cfg) must violate its Catch... invariant in TLC.
 """
 from __future__ import annotations
 
@@ -46,7 +46,7 @@ def tset(xs) -> str:
 
 def dom(**kw) -> dict:
     base = dict(ALLOWFORCE=AF4, RESOLVES=["off"], STUBMODES=["none"], LAYOUTS=["flat", "chain"], TOPS=TOPS6, KIDSA=K4, KIDSB=K4,
-                TOPFAULTS=F4, KIDFAULTS=F4, EXTFAULTS=["none"], EXTSTYLES=["none"], EXTPRIVATES=[False], EXTKINDS=["missing"], BUG="none")
+                TOPFAULTS=F4, KIDFAULTS=F4, EXTFAULTS=["none"], EXTSTYLES=["none"], EXTPRIVATES=[False], EXTKINDS=["missing"])
     base.update(kw)
     return base
 
@@ -80,19 +80,10 @@ DOMAINS = {
     },
 }
 
-# seeded defects of the model (LoadProtocol.tla, constant Bug) and the invariant TLC must report for each
-MODEL_BUGS = {
-    # (cfg template, domain, invariants of which TLC must report one)
-    "allowFirst": ("LoadProtocol_check.cfg", dom(ALLOWFORCE=["a-"], TOPS=["py"], KIDSA=["py"], KIDSB=["missing"], LAYOUTS=["flat"], TOPFAULTS=["none"], KIDFAULTS=["none"]),
-                   ["SourceVisitedUnlessForced"]),
-    "noReraise": ("LoadProtocol_core.cfg", dom(ALLOWFORCE=["--"], TOPS=["sofile", "missing"], TOPFAULTS=["none"]), ["NoExecutionWhenStatic"]),
-    "noFinally": ("LoadProtocol_core.cfg", dom(ALLOWFORCE=["a-"], TOPS=["py"], KIDSA=["so"], KIDSB=["missing"], LAYOUTS=["flat"], TOPFAULTS=["none"]),
-                  ["Balanced", "PathRestoredAtEnd"]),
-    "stubsDynamic": ("LoadProtocol_core.cfg", dom(ALLOWFORCE=["--"], STUBMODES=["inpkg"], TOPS=["py"], KIDSA=["missing"], KIDSB=["missing"], LAYOUTS=["flat"],
-                                                  TOPFAULTS=["none"]), ["NoExecutionWhenStatic"]),
-    "externalInspect": ("LoadProtocol_core.cfg", dom(ALLOWFORCE=["--"], RESOLVES=["true"], TOPS=["py"], KIDSA=["missing"], KIDSB=["missing"], LAYOUTS=["flat"],
-                                                     TOPFAULTS=["none"], EXTSTYLES=["name"], EXTKINDS=["py"], EXTFAULTS=["none", "exit"]), ["NoExecutionWhenStatic"]),
-}
+# seeded defects of the model (LoadProtocol.tla, cfg.bug) = the mutants transcribed; LoadProtocol_bugs.cfg run with -continue
+# must report every one of these invariants violated and must not report CleanHolds
+MODEL_BUGS = {"allowFirst": "CatchAllowFirst", "noReraise": "CatchNoReraise", "noFinally": "CatchNoFinally", "stubsDynamic": "CatchStubsDynamic",
+              "externalInspect": "CatchExternalInspect"}
 
 EVENT_FIELDS = {
     "LoadExtensions": ["touched"], "Load": ["pkg"], "ResolveExternal": ["pkg"], "FindSpec": ["pkg", "res", "stubs", "viastubs"],
@@ -102,6 +93,9 @@ EVENT_FIELDS = {
     "WrapError": ["m", "frm", "to"], "LoadReturn": ["pkg", "path_ok"], "LoadRaise": ["pkg", "exc", "path_ok"], "Return": ["path_ok"],
     "Raise": ["exc", "path_ok"],
 }
+# JVM options (tlc.run passes `env` on): tiny runs are start-up bound -> C1 only; all runs: few GC threads (many JVMs run concurrently)
+JVM_TINY = {"JAVA_TOOL_OPTIONS": "-XX:TieredStopAtLevel=1 -XX:ParallelGCThreads=1 -XX:CICompilerCount=1"}
+JVM_MAIN = {"JAVA_TOOL_OPTIONS": "-XX:ParallelGCThreads=2"}
 ACTIONS = ["LoadExtensions", "LoadMain", "ResolveExternal", "FindSpec", "ChooseAgent", "Visit", "Submodule", "CreateNsParent", "SkipSubmodule", "DynImport",
            "EnterSysPath", "TryImport", "Import", "ImportOk", "ImportFail", "ExitSysPath", "DynImportOk", "DynImportFail", "InspectTop", "Inspected",
            "InspectFail", "WrapError", "StubPass", "LoadReturn", "LoadRaise", "Return", "Raise"]
@@ -261,7 +255,7 @@ def run_cases(cases: list, workdir: str, nworkers: int) -> dict:
 
 
 # ---- trace validation ----------------------------------------------------------------------------------------
-def validate_traces(lines: list, workdir: str, tag: str, chunk: int, parallel: int, tlc_workers: int) -> tuple:
+def validate_traces(lines: list, workdir: str, tag: str, chunk: int, parallel: int, tlc_workers: int, jvm: dict = JVM_MAIN) -> tuple:
     """lines: [{tid, cfg, events}] -> ({tid: verdict record}, [TLCResult])."""
     jobs = []
     chunks = [lines[k:k + chunk] for k in range(0, len(lines), chunk)]
@@ -271,7 +265,7 @@ def validate_traces(lines: list, workdir: str, tag: str, chunk: int, parallel: i
             with open(path, "w") as fh:
                 for ln in ch:
                     fh.write(json.dumps(ln) + "\n")
-            jobs.append(pool.submit(tlc.run, "Trace_LoadProtocol", "Trace_LoadProtocol.cfg", workers=tlc_workers, env={"C15_TRACE_FILE": path},
+            jobs.append(pool.submit(tlc.run, "Trace_LoadProtocol", "Trace_LoadProtocol.cfg", workers=tlc_workers, env=dict(jvm, C15_TRACE_FILE=path),
                                     timeout=3000, heap="3g"))
     verdicts, results = {}, []
     for job in jobs:
@@ -310,59 +304,63 @@ def corrupt(line: dict, rnd: random.Random) -> tuple:
     return line, k, desc
 
 
-def selftest_traces(run: Run, lines: list, workdir: str, rnd: random.Random, n: int):
-    """corrupt one recorded field in n traces (+ one dropped event, one truncated trace): all must be rejected where corrupted."""
+def selftest_batch(lines: list, rnd: random.Random, n: int) -> tuple:
+    """corrupted copies of n recorded traces (one field changed each) + one with an event dropped + one truncated + one
+    untouched control; validated in the same TLC run as the real traces.  -> (extra lines, {tid: (orig tid, position, what)})"""
     pool = [ln for ln in lines if any(e["ev"] == "Import" for e in ln["events"])] or lines
     picks = rnd.sample(pool, min(n, len(pool)))
     batch, expect = [], {}
     for j, ln in enumerate(picks):
         bad, k, desc = corrupt(ln, rnd)
-        bad["tid"] = 900000 + j
+        bad["tid"] = 9000000 + j
         batch.append(bad)
-        expect[bad["tid"]] = (k, desc)
+        expect[bad["tid"]] = (ln["tid"], k, desc)
     dropped = copy.deepcopy(picks[0])
     kdrop = next(k for k, e in enumerate(dropped["events"]) if e["ev"] in ("Import", "ChooseAgent"))
     del dropped["events"][kdrop]
-    dropped["tid"] = 990001
-    expect[990001] = (kdrop, f"event {kdrop + 1} dropped")
+    dropped["tid"] = 9900001
+    expect[9900001] = (picks[0]["tid"], kdrop, f"event {kdrop + 1} dropped")
     trunc = copy.deepcopy(picks[-1])
     trunc["events"] = trunc["events"][:-1]
-    trunc["tid"] = 990002
-    expect[990002] = (len(trunc["events"]), "last event (Return/Raise) removed")
+    trunc["tid"] = 9900002
+    expect[9900002] = (picks[-1]["tid"], len(trunc["events"]), "last event (Return/Raise) removed")
     control = copy.deepcopy(picks[0])
-    control["tid"] = 990003
+    control["tid"] = 9900003
+    expect[9900003] = (picks[0]["tid"], None, "untouched control copy")
     batch += [dropped, trunc, control]
-    verdicts, results = validate_traces(batch, workdir, "selftest", 1000, 1, 1)
-    for res in results:
-        run.add_tlc(res)
-    for tid, (k, desc) in expect.items():
+    return batch, expect
+
+
+def selftest_verdicts(run: Run, verdicts: dict, expect: dict):
+    done = 0
+    for tid, (orig, k, desc) in expect.items():
+        if verdicts.get(orig, {}).get("verdict") != "accept":
+            continue              # the original itself was not accepted (drift or a violation): nothing to learn from its corruption
         v = verdicts.get(tid)
+        if k is None:
+            if v is None or v["verdict"] != "accept":
+                die(f"C15 binding self-test: the {desc} of an accepted trace was not accepted: {v}")
+            continue
         if v is None or v["verdict"] != "reject" or v["at"] != k:
             die(f"C15 binding self-test: corrupted trace ({desc}) was not rejected at event {k + 1}: verdict {v}")
-    if verdicts.get(990003, {}).get("verdict") != "accept":
-        die(f"C15 binding self-test: the uncorrupted control trace was not accepted: {verdicts.get(990003)}")
-    run.extra["selftest_corrupted_traces_rejected"] = len(expect)
-    run.sample({"selftest": "corrupted trace rejected", "what": next(iter(expect.values()))[1]}, limit=8)
+        done += 1
+        run.sample({"selftest": "corrupted trace rejected by Trace_LoadProtocol", "what": desc, "verdict": v}, limit=6)
+    run.extra["selftest_corrupted_traces_rejected"] = done
+    return done
 
 
 def selftest_model_bugs(run: Run):
-    """every seeded defect of the model must make TLC report (one of) the expected invariants."""
-    with ThreadPoolExecutor(max_workers=3) as pool:
-        jobs = {bug: pool.submit(tlc.run, "LoadProtocol", cfgname, workers=1, constants=consts(dict(d, BUG=bug)), deadlock=True, timeout=900)
-                for bug, (cfgname, d, _exp) in MODEL_BUGS.items()}
-    got = {}
-    for bug, job in jobs.items():
-        res = job.result()
-        if res.errors:
-            print(res.tail)
-            die(f"C15: TLC failed on model bug {bug}: {res.errors[:2]}")
-        run.add_tlc(res)
-        exp = MODEL_BUGS[bug][2]
-        got[bug] = res.violated
-        if not set(res.violated) & set(exp):
-            print(res.tail)
-            die(f"C15: seeded model defect {bug} is not caught by {exp} (TLC reported {res.violated}): the invariants are vacuous")
-    run.extra["model_bugs"] = got
+    """every seeded defect of the model must make TLC report its Catch... invariant (vacuity guard for the clauses)."""
+    res = tlc.run("LoadProtocol", "LoadProtocol_bugs.cfg", workers=1, deadlock=True, timeout=900, env=JVM_TINY, heap="512m", extra=["-continue"])
+    if res.errors or not res.finished:
+        print(res.tail)
+        die(f"C15: TLC failed on the seeded model defects: {res.errors[:2]}")
+    run.add_tlc(res)
+    got = sorted(set(res.violated))
+    missing = [inv for inv in MODEL_BUGS.values() if inv not in got]
+    if missing or "CleanHolds" in got:
+        die(f"C15: seeded model defects: TLC reported {got}; not caught: {missing}; clean model violated: {'CleanHolds' in got} - the invariants are vacuous or the model is wrong")
+    run.extra["model_bugs_caught"] = {b: inv for b, inv in MODEL_BUGS.items()}
 
 
 # ---- main -------------------------------------------------------------------------------------------------------
@@ -434,7 +432,7 @@ def _main(run: Run, tier: str, rnd: random.Random, workdir: str, ext_so):
             parts = [[a] for a in afs] if tier == "thorough" else [afs]
             for part in parts:
                 jobs[name, tuple(part)] = pool.submit(tlc.run, "LoadProtocol", "LoadProtocol_check.cfg", workers=2 if tier == "quick" else 4,
-                                                      constants=consts(dict(d, ALLOWFORCE=part)), deadlock=True, coverage=True, timeout=3000, heap="4g")
+                                                      constants=consts(dict(d, ALLOWFORCE=part)), deadlock=True, coverage=True, timeout=3000, heap="3g", env=JVM_MAIN)
         bugs_job = pool.submit(selftest_model_bugs, run)
     spec = {}
     per_domain = {}
@@ -444,6 +442,7 @@ def _main(run: Run, tier: str, rnd: random.Random, workdir: str, ext_so):
         tlc.must(res)          # an invariant violated in the clean model = the model (or the design) is wrong: exit 2
         run.add_tlc(res)
         for c in res.cases:
+            c["cfg"].pop("bug", None)          # always "none" here (Bugs = {"none"}); not part of the concretised case
             k = cfg_key(c["cfg"])
             vs = spec.setdefault(k, [])
             if not any(spec_terminal(v) == spec_terminal(c) for v in vs):
@@ -504,7 +503,7 @@ def _main(run: Run, tier: str, rnd: random.Random, workdir: str, ext_so):
             or cfg["stubs"] != "none" or cfg["extstyle"] != "none"
         if interesting:
             run.nontrivial_case(case["key"] + case["compiled_as"])
-        lines.append({"tid": case["id"], "cfg": cfg, "events": project_events(r["events"])})
+        lines.append({"tid": case["id"], "cfg": dict(cfg, bug="none"), "events": project_events(r["events"])})
         if len(run.samples) < 4 and (faulted or static) and r["events"]:
             run.sample({"cfg": cfg, "compiled_as": r.get("compiled_as"), "outcome": r["outcome"], "executed": r["executed_seq"], "sysmodules": r["sysmodules"],
                         "path_same": r["path_same"], "path_equal": r["path_equal"], "events": [e["ev"] for e in r["events"]][:40]}, limit=4)
@@ -514,12 +513,13 @@ def _main(run: Run, tier: str, rnd: random.Random, workdir: str, ext_so):
     if static_n == 0 or compiled_static == 0 or faulted == 0:
         die("C15: vacuous replay (no static case / no static case with a compiled module / no fault ever fired)")
     # ---- 3. trace validation: every recorded trace must be a behaviour of the spec ------------------------------------------
-    verdicts, tres = validate_traces(lines, workdir, "all", 1200 if tier == "quick" else 6000, 4, 2)
+    st_lines, st_expect = selftest_batch(lines, rnd, 6 if tier == "quick" else 40)
+    verdicts, tres = validate_traces(lines + st_lines, workdir, "all", 6000 if tier == "quick" else 11000, 4, 4)
     for res in tres:
         run.add_tlc(res)
-    accepted = sum(1 for v in verdicts.values() if v["verdict"] == "accept")
-    rejected = [v for v in verdicts.values() if v["verdict"] == "reject"]
-    missing = [ln["tid"] for ln in lines if ln["tid"] not in verdicts]
+    accepted = sum(1 for ln in lines if verdicts.get(ln["tid"], {}).get("verdict") == "accept")
+    rejected = [verdicts[ln["tid"]] for ln in lines if verdicts.get(ln["tid"], {}).get("verdict") == "reject"]
+    missing = [ln["tid"] for ln in lines + st_lines if ln["tid"] not in verdicts]
     if missing:
         die(f"C15: trace validation produced no verdict for {len(missing)} trace(s), e.g. tid {missing[:3]}")
     run.replayed(accepted)
@@ -539,11 +539,8 @@ def _main(run: Run, tier: str, rnd: random.Random, workdir: str, ext_so):
     run.extra["traces_rejected_unexplained"] = unexplained
     t_trace = time.time() - t0 - t_tlc - t_replay
     # ---- 4. self-tests of the binding ----------------------------------------------------------------------------------------
-    good = [ln for ln in lines if verdicts[ln["tid"]]["verdict"] == "accept"]
-    if good:
-        selftest_traces(run, good, workdir, rnd, 6 if tier == "quick" else 40)
-    elif not run.violations:
-        die("C15: no accepted trace to run the corruption self-test on")
+    if selftest_verdicts(run, verdicts, st_expect) == 0 and not run.violations:
+        die("C15: the corrupted-trace self-test did not run on any accepted trace")
     if tier == "thorough":
         # fresh-interpreter cross-check of the forked-child isolation: same observations from a brand-new interpreter
         dyn = [c for c in cases if c["cfg"]["allow"] or c["cfg"]["force"]]
